@@ -137,6 +137,24 @@ def observe(scratch, tier):
         return list(ex.map(one, [(str(scratch), k, f) for k, f in enumerate(cs)]))
 
 
+def model_records():
+    """the whole product of the flag dimensions, without observations (Cli.tla ModelOnly)"""
+    names = [d for d, _ in DIMS]
+    out = []
+    for vals in itertools.product(*[vs for _, vs in DIMS]):
+        f = dict(zip(names, vals))
+        if f["nargs"] == 2 and f["pc"] == "none":
+            continue
+        out.append({"f": f, "m": True})
+    return out
+
+
+def evaluate_model(scratch):
+    recs = model_records()
+    fails, states = core.eval_report("Cli", "Cli.cfg", recs, scratch=scratch, chunk=25000)
+    return recs, fails, states
+
+
 def evaluate(recs, scratch):
     slim = [{"f": r["f"], "o": r["o"]} for r in recs]
     return core.eval_report("Cli", "Cli.cfg", slim, scratch=scratch)
